@@ -42,6 +42,9 @@ func exec(c proto.Case, o *proto.Out) []string {
 	if len(c.Ops) > 0 && strings.HasPrefix(c.Ops[0], "wcfg ") {
 		return execWiring(c, o) // level 2, wiring.go
 	}
+	if isRealCase(c) {
+		return execReal(c, o) // production clock, realclock.go
+	}
 	outs := make([]string, len(c.Ops))
 	var cfg failsafe.Config
 	var t0 int64
@@ -171,8 +174,16 @@ func gen(r *prng.R, f proto.Flags, emit func(proto.Case)) {
 }
 
 func genAll(r *prng.R, f proto.Flags, emit func(proto.Case)) {
+	// the real-clock cases take real seconds: they run beside everything else and are collected at the end
+	rc := realCases(f.Tier)
+	for _, c := range rc {
+		startReal(c)
+	}
 	gen(r, f, emit)
 	genWiring(r, f, emit) // level 2, wiringgen.go
+	for _, c := range rc {
+		emit(c)
+	}
 }
 
 func b2i(b bool) int {
